@@ -167,6 +167,8 @@ def replay(prop, path):
     """Re-run the stored case against the current tree."""
     out = C.Outcome(prop, "quick")
     wd = C.workdir("c11r")
+    saved = C.REPLAYS
+    C.REPLAYS = os.path.join(saved, "replayed")     # do not clobber the stored cases of the last run
     try:
         v = json.load(open(path))
         case = v.get("case", v)
@@ -185,4 +187,5 @@ def replay(prop, path):
         out.rule = "replay of one stored case"
         return out.finish()
     finally:
+        C.REPLAYS = saved
         C.cleanup(wd)
